@@ -113,6 +113,7 @@ Vals apply_xform(const Vals &v, Xform x) {
         if (o.size() > 64) o.resize(64);
         break;
     case X_DOUBLE:
+        if ((o.size() % 3) == 1) break; // keep NaNs / infinities / subnormals as they are for some inputs
         for (auto &e : o) {
             uint64_t ex = (e >> 52) & 0x7ff;
             if (ex == 0x7ff || ex == 0) e = (e & 0x800fffffffffffffULL) | (1023ULL << 52);
@@ -230,6 +231,7 @@ uint64_t run_call(const Op &c, Shared &sh, int slice, int nslices) {
             d.u64(varintPFORDecode(big.data(), out.data(), &m2));
             d.bytes(out.data(), n * 8);
             d.u64(varintPFORGetAt(big.data(), (uint32_t)(n / 2), &m2));
+            for (size_t i = 0; i < n; i += (n > 16 ? n / 8 : 1)) d.u64(varintPFORGetAt(big.data(), (uint32_t)i, &m2));
         }
     } else if (k == "group.rt") {
         Lib l;
@@ -241,6 +243,12 @@ uint64_t run_call(const Op &c, Shared &sh, int slice, int nslices) {
         d.u64(fc);
         d.bytes(out.data(), n * 8);
         d.u64(varintGroupGetSize(buf.data()));
+        {
+            uint64_t fv = 0;
+            d.u64(varintGroupGetField(buf.data(), (uint8_t)(n / 2), &fv));
+            d.u64(fv);
+            d.u64(varintGroupGetFieldWidth(buf.data(), (uint8_t)(n - 1)));
+        }
     } else if (k == "dict.rt") {
         Lib l;
         size_t need = varintDictEncodedSize(in, n);
@@ -286,7 +294,12 @@ uint64_t run_call(const Op &c, Shared &sh, int slice, int nslices) {
                             : varintRLEDecodeWithHeader(buf.data(), out.data(), n));
         d.bytes(out.data(), n * 8);
         d.u64(varintRLESize(in, n));
-        if (k == "rle.rt") d.u64(varintRLEGetRunCount(buf.data(), w));
+        if (k == "rle.rt") {
+            d.u64(varintRLEGetRunCount(buf.data(), w));
+            d.u64(varintRLEGetAt(buf.data(), n / 2));
+            d.u64(varintRLEGetAt(buf.data(), n - 1));
+        } else
+            d.u64(varintRLEGetCount(buf.data()));
     } else if (k == "elias.gamma" || k == "elias.delta") {
         Lib l;
         bool g = k == "elias.gamma";
@@ -441,6 +454,7 @@ class FiberEngine : public Engine {
             in.kind = "input";
             in.set("id", i);
             size_t n = r.chance(1, 2) ? r.range(1, 16) : r.range(1, 64);
+            if (r.chance(1, 12)) n = r.range(65, 400); // e.g. more than 256 dictionary entries, several BP128 blocks
             in.mkarr("values") = gen_array(r, n, (int)r.below(ARR_NCLASSES));
             p.ops.push_back(in);
         }
@@ -547,7 +561,9 @@ class FiberEngine : public Engine {
         std::string strat = plan.knob("strategy", "random");
         cfg.seed = plan.seed;
         cfg.est_steps = std::max<uint64_t>(est, 1);
-        cfg.step_budget = est * 8 + 4000000;
+        // termination: a generous multiple of the measured solo cost; when the concurrent pass runs
+        // first there is no measurement yet, so only a runaway loop can exceed the budget
+        cfg.step_budget = concurrent_first ? 4000000000ULL : est * 16 + 4000000;
         if (sched && sched->arr("switches")) {
             cfg.strategy = fiber::REPLAY;
             cfg.replay = *sched->arr("switches");
